@@ -42,6 +42,16 @@ class Recorder:
         self.calls = []
 
     def __call__(self, I, args, kwargs, node):
+        # _wrap_result(cls=..., result=..., returns=..., num_vecargs=...) means the same as the positional call: record it positionally
+        from ..dispatchers import _param_names
+        names = _param_names("_wrap_result")
+        if kwargs and names is not None and set(kwargs) <= set(names[len(args):]):
+            args = list(args)
+            kwargs = dict(kwargs)
+            for nm in names[len(args):]:
+                if nm not in kwargs:
+                    break
+                args.append(kwargs.pop(nm))
         self.calls.append((args, kwargs))
         return Opaque(("wrapped", len(self.calls) - 1), "notnone")
 
